@@ -368,6 +368,14 @@ class BoboDistributedTCP(BoboDistributed,
                 outlist: List[Tuple[BoboDeviceManager, int]] = []
                 now: int = self._now()
 
+                # Take the SYNC data for this iteration once, before deciding
+                # what to send, so that every device sees the same data: data
+                # queued while deciding is left for the next iteration.
+                cache_sync: Optional[Dict[str, List[BoboRunSerial]]] = None
+                if not self._queue_outgoing.empty():
+                    cache_sync = self._queue_outgoing.get_nowait()
+                queue_empty: bool = cache_sync is None
+
                 # Determine what to send to each device...
                 for d in self._devices.values():
                     # Ignore self...
@@ -376,7 +384,6 @@ class BoboDistributedTCP(BoboDistributed,
 
                     comms_range: int = (now - d.last_comms)
                     attempt_range: int = (now - d.last_attempt)
-                    queue_empty: bool = self._queue_outgoing.empty()
 
                     # If device is within the "RESYNC Period"...
                     if comms_range >= self._period_resync:
@@ -404,9 +411,6 @@ class BoboDistributedTCP(BoboDistributed,
                                 attempt_range >= self._attempt_stash
                         ):
                             outlist.append((d, _TYPE_SYNC))
-
-            # Compiled SYNC data for sending to all devices
-            cache_sync: Optional[Dict[str, List[BoboRunSerial]]] = None
 
             for d, msg_type in outlist:
                 # Set flags
@@ -472,16 +476,13 @@ class BoboDistributedTCP(BoboDistributed,
                     d.last_attempt = now
 
                 elif msg_type == _TYPE_SYNC:
-                    # Get SYNC data to send (cached for all devices to use)
+                    # No new SYNC data this iteration: send the stash only
                     if cache_sync is None:
-                        if not self._queue_outgoing.empty():
-                            cache_sync = self._queue_outgoing.get_nowait()
-                        else:
-                            cache_sync = {
-                                _KEY_COMPLETED: [],
-                                _KEY_HALTED: [],
-                                _KEY_UPDATED: []
-                            }
+                        cache_sync = {
+                            _KEY_COMPLETED: [],
+                            _KEY_HALTED: [],
+                            _KEY_UPDATED: []
+                        }
 
                     # Get device's stash of unsent data
                     stash_c, stash_h, stash_u = d.stash()
